@@ -71,6 +71,20 @@ def selftest():
     return 0 if ok else 1
 
 
+def _verbose_logging():
+    """Process-level logging as a debugging session has it: DEBUG everywhere, every record really formatted (so a `%r` of a
+    component is evaluated at the log call), output discarded."""
+    import logging
+
+    class Discard(logging.Handler):
+        def emit(self, record):
+            self.format(record)
+
+    h = Discard()
+    h.setFormatter(logging.Formatter("%(asctime)s %(name)s %(levelname)s %(message)s"))
+    logging.basicConfig(level=logging.DEBUG, handlers=[h], force=True)
+
+
 def main(argv=None):
     ap = argparse.ArgumentParser(prog="check")
     ap.add_argument("prop", nargs="?")
@@ -91,11 +105,17 @@ def main(argv=None):
     if a.replay:
         path = a.replay if os.path.isabs(a.replay) else os.path.join(core.ROOT, a.replay)
         data = json.load(open(path, encoding="utf-8"))
+        if data.get("python_optimize") and not sys.flags.optimize:
+            # recorded by the worker that runs with asserts stripped: replay under the same interpreter mode
+            os.execv(sys.executable, [sys.executable, "-O", "-m", "rv.main", prop, "--replay", path])
+        _verbose_logging()
         return mod.replay(data)
     if a.worker:
         i, n = (int(x) for x in a.worker.split("/"))
         faulthandler.enable()
+        _verbose_logging()
         ctx = core.Ctx(prop, a.tier, a.seed, i, n)
+        ctx.inc("workers_with_asserts_stripped(-O)", 1 if sys.flags.optimize else 0)
         mod.work(ctx, a.tier)
         with open(a.out, "w", encoding="utf-8") as f:
             json.dump(ctx.dump(), f)
